@@ -163,6 +163,22 @@ def c2s_records(rng, n):
                 seq.append(rng.choice([f for f in forms if f[0] != seq[0][0]]))
             for kind, make in seq:
                 add({"t": kind, "inp": rat(q), "got": rat(make())})
+        elif r < 0.195:
+            # decimal strings with 4-6 places a hair off the MIDPOINT between two ticks (odd multiples of 1/96)
+            places = rng.randint(4, 6)
+            mid = Fraction(2 * rng.randint(0, (400 if places < 6 else 40) * 48) + 1, 96)      # (mantissa x 48 must fit TLC's integers)
+            m = int(mid * 10 ** places) + rng.choice([-2, -1, 0, 1, 2, 3])
+            if m < 0 or abs(m) >= 2 ** 31:
+                continue
+            sx = "%d.%0*d" % (m // 10 ** places, places, m % 10 ** places)
+            via = rng.randrange(3)
+            if via == 0:
+                add({"t": "fromstr", "text": cps(sx), "got": rat(Beat.from_str(sx))})
+            elif via == 1:
+                add({"t": "inexact", "inp": rat(Fraction(sx)), "got": rat(Beat(sx))})
+            else:
+                bv = BeatValues.from_str("0.000=120.000,\n" + sx + "=150.000\n")
+                add({"t": "fromstr", "text": cps(sx), "got": rat(Fraction(bv[1].beat))})
         elif r < 0.22:
             nn, dd = rng.randint(-3000, 3000), rng.randint(1, 1000)
             how = rng.random()
